@@ -3,6 +3,7 @@
   line per operation). Imports only the model (no proofs, no Mathlib) so it links as an executable.
 -/
 import LucidModel
+import LucidModel.Safe
 import LucidModel.Gen.Consts
 import LucidModel.Gen.Langs
 import Std.Data.HashMap
@@ -198,8 +199,14 @@ def step (st : DState) (line : String) : DState × Option String :=
     ({ newDState st.uni with lang := st.lang }, some s!"case {name}")
   | ["lang", code] => ({ st with lang := code }, none)
   | ["stem", code, w, n] => ({ st with stems := st.stems.insert (code, parseList w) (parseNat n) }, none)
-  | ["tokq", s] => let t := tokenizeWith st st.lang true (parseList s); (st, some (guardMissing [t] s!"tok {showText t}"))
-  | ["tokr", s] => let t := tokenizeWith st st.lang false (parseList s); (st, some (guardMissing [t] s!"tok {showText t}"))
+  | ["tokq", s] =>
+    let t := tokenizeWith st st.lang true (parseList s)
+    let safe := runStepsSafe (envFor st st.lang) srcQuerySteps (parseList s)
+    (st, some (guardMissing [t] (if safe then s!"tok {showText t}" else "unsafe tokenize_query")))
+  | ["tokr", s] =>
+    let t := tokenizeWith st st.lang false (parseList s)
+    let safe := runStepsSafe (envFor st st.lang) srcRecordSteps (parseList s)
+    (st, some (guardMissing [t] (if safe then s!"tok {showText t}" else "unsafe tokenize_record")))
   | ["trig", s] =>
     let gs := trigrams (parseList s)
     (st, some ("trig " ++ (if gs.isEmpty then "-" else ";".intercalate (gs.map (fun g => s!"{g.1}.{g.2.1}.{g.2.2}")))))
@@ -235,6 +242,7 @@ def step (st : DState) (line : String) : DState × Option String :=
     let rt := tokenizeWith st st.lang false (parseList title)
     let qt := tokenizeWith st st.lang true (parseList query)
     let h := scoreHit srcConsts srcScoreOrder qt { ix := 0, id := 0, title := rt, rating := parseNat rating }
+    if !(hitSafe srcConsts srcScoreOrder qt { ix := 0, id := 0, title := rt, rating := parseNat rating }) then (st, some (guardMissing [rt, qt] "unsafe text_match/score/highlight")) else
     (st, some (guardMissing [rt, qt] s!"tm r={showMatches h.rmatches} q={showMatches h.qmatches} scores={showInts h.scores} pass={showBool (hitMatches qt h)} hl={showList (highlight h [91] [93])}"))
   | ["splitty", t, l1, l2] =>
     let r := splitTypos (parseNat t) (parseNat l1) (parseNat l2)
@@ -242,14 +250,16 @@ def step (st : DState) (line : String) : DState × Option String :=
   | ["new"] => ({ st with store := Store.new srcConsts }, some "ok")
   | ["add", id, rating, title] =>
     let t := tokenizeWith st st.lang false (parseList title)
-    ({ st with store := st.store.add (parseNat id) t (parseNat rating) }, some (guardMissing [t] "ok"))
+    let safe := runStepsSafe (envFor st st.lang) srcRecordSteps (parseList title) && st.store.addSafe t
+    ({ st with store := st.store.add (parseNat id) t (parseNat rating) }, some (guardMissing [t] (if safe then "ok" else "unsafe add")))
   | ["clear"] => ({ st with store := st.store.clear }, some "ok")
   | ["limit", n] => ({ st with store := st.store.setLimit (parseNat n) }, some "ok")
   | ["markers", l, r] => ({ st with store := st.store.setDividers (parseList l) (parseList r) }, some "ok")
   | ["search", q] =>
     let qt := tokenizeWith st st.lang true (parseList q)
     let (out, store') := searchObs st.store qt
-    ({ st with store := store' }, some (guardMissing [qt] out))
+    let safe := runStepsSafe (envFor st st.lang) srcQuerySteps (parseList q) && st.store.searchSafe theSorter srcConsts srcScoreOrder qt
+    ({ st with store := store' }, some (guardMissing [qt] (if safe then out else "unsafe search")))
   | ["prepare", q, size] =>
     let qt := tokenizeWith st st.lang true (parseList q)
     let pos := positiveCounts st.store.index qt
